@@ -1156,20 +1156,18 @@ class CanBeVaries(Element):
             else:
                 reference = ('sequence', children_refs, datatype, None, None, -1)
 
+        # the element is built on its own and handed to its (traversal) parent at the end, when its name and
+        # datatype are settled and every check is passed: the parent accepts the child by its name, and a
+        # construction that is refused leaves the parent as it was
         if name is not None and _valid_child_name(name, 'VARIES'):
             # Set name to None because with a VARIES name the Element would raise an Exception
-            # (the parent is given afterwards: it accepts the child by its name)
             Element.__init__(self, None, None, reference, version,
                              validation_level, None)
             self.name = name.upper()
-            if parent is not None:
-                self.parent = parent
-            elif traversal_parent is not None:
-                self.traversal_parent = traversal_parent
         else:
             try:
-                Element.__init__(self, name, parent, reference, version,
-                                 validation_level, traversal_parent)
+                Element.__init__(self, name, None, reference, version,
+                                 validation_level, None)
             except ChildNotFound:
                 raise InvalidName(self.classname, self.name)
 
@@ -1189,6 +1187,15 @@ class CanBeVaries(Element):
         else:
             self.datatype = datatype
             self.name = self.datatype
+
+        self.__dict__['_pending_parents'] = (parent, traversal_parent)
+
+    def _attach_to_parents(self):
+        parent, traversal_parent = self.__dict__.pop('_pending_parents', (None, None))
+        if parent is not None:
+            self.parent = parent
+        elif traversal_parent is not None:
+            self.traversal_parent = traversal_parent
 
     def _find_structure(self, reference=None):
         if self.name is not None or reference is not None:
@@ -1249,6 +1256,7 @@ class SubComponent(CanBeVaries):
             self.datatype = 'ST'
 
         self.value = value
+        self._attach_to_parents()
 
     def add(self, obj):
         raise OperationNotAllowed("Cannot add children to a SubComponent")
@@ -1369,6 +1377,8 @@ class Component(SupportComplexDataType, CanBeVaries):
                 not is_base_datatype(self.datatype, self.version) and self.datatype != 'varies':
             raise OperationNotAllowed("Cannot instantiate an unknown Element with strict validation")
 
+        self._attach_to_parents()
+
     def add_subcomponent(self, name):
         """
         Create an instance of :class:`SubComponent <hl7apy.core.SubComponent>` having the given name
@@ -1471,9 +1481,11 @@ class Field(SupportComplexDataType):
         if datatype == 'varies' and reference is None:
             reference = ('leaf', None, 'varies', None, None, -1)
 
+        # the field is built on its own and handed to its (traversal) parent at the end, once every check is
+        # passed: a construction that is refused leaves the parent as it was
         try:
-            Element.__init__(self, name, parent, reference, version,
-                             validation_level, traversal_parent)
+            Element.__init__(self, name, None, reference, version,
+                             validation_level, None)
         except InvalidName:
             if _valid_z_field_name(name):
                 datatype = datatype or 'ST'
@@ -1484,8 +1496,8 @@ class Field(SupportComplexDataType):
                         version = get_default_version()
                     dt_struct = load_reference(datatype, "Datatypes_Structs", version)
                     reference = ('sequence', dt_struct, datatype, None, None, -1)
-                Element.__init__(self, name, parent, reference, version,
-                                 validation_level, traversal_parent)
+                Element.__init__(self, name, None, reference, version,
+                                 validation_level, None)
             else:
                 raise
 
@@ -1497,6 +1509,11 @@ class Field(SupportComplexDataType):
             self.datatype = datatype
         elif self.name is None:  # if it is unknown and no datatype has been given
             self.datatype = None
+
+        if parent is not None:
+            self.parent = parent
+        elif traversal_parent is not None:
+            self.traversal_parent = traversal_parent
 
     def add_component(self, name):
         """
